@@ -107,12 +107,13 @@ pub fn continuation(d: &Dir, line: &str) -> Option<String> {
 }
 
 /// Group the lines of a source into ordinary lines and directives.
-/// Stops at a prefix-less multi-line directive (that is an error): returns the elements so far
-/// and the 0-based line of the error.
+/// A prefix-less multi-line directive is an error: its 0-based line is returned as well, and the
+/// grouping carries on behind it the way clean mode does.
 pub fn parse(text: &str) -> (Vec<Elem>, Option<usize>) {
     let lines = split_lines(text);
     let mut out = vec![];
     let mut cur: Option<Dir> = None;
+    let mut first_err: Option<usize> = None;
     let mut i = 0;
     while i < lines.len() {
         let line = lines[i];
@@ -122,9 +123,15 @@ pub fn parse(text: &str) -> (Vec<Elem>, Option<usize>) {
                     None => out.push(Elem::Text(line.to_string())),
                     Some(d) => {
                         if is_multi(&d.name) && d.prefix.is_empty() {
-                            return (out, Some(i));
+                            // an error in every mode but clean, which replaces the line by nothing
+                            // and carries on; the elements after it matter for generated paths
+                            if first_err.is_none() {
+                                first_err = Some(i);
+                            }
+                            out.push(Elem::Text(String::new()));
+                        } else {
+                            cur = Some(d);
                         }
-                        cur = Some(d);
                     }
                 }
                 i += 1;
@@ -145,7 +152,7 @@ pub fn parse(text: &str) -> (Vec<Elem>, Option<usize>) {
     if let Some(d) = cur {
         out.push(Elem::D(d));
     }
-    (out, None)
+    (out, first_err)
 }
 
 #[derive(Clone, Debug)]
